@@ -1,14 +1,49 @@
 from specs import R
 
+_NAMES = [x + n for n in ("pair0", "pair1", "pub", "sub", "req", "rep", "push", "pull", "surveyor", "respondent", "bus") for x in ("", "x")]
+_CTX = ("req", "rep", "sub", "surveyor", "respondent")
+
+
+def _floors(scale):
+    f = {"probes": int(14000 * scale), "parked_cases": 900, "@classes": 2500,
+         "eagain_judged": int(4000 * scale),
+         # gap 1: API forms
+         "probes_form_buf": int(2000 * scale), "probes_form_aio": int(3000 * scale),
+         "probes_form_ctx": int(600 * scale), "probes_form_ctx-aio": int(400 * scale),
+         "ctx_ops_succeeded": int(300 * scale),
+         # gap 2: states after cancelled / timed-out aios, probes while one is parked, survey expiry
+         "parked_aio_recv_cancelled": 15, "parked_aio_recv_timedout": 6,
+         "parked_aio_send_cancelled": 4, "parked_aio_send_timedout": 1,
+         "probe_rounds_while_aio_parked": 8, "surveys_expired": 4,
+         "disruptions_with_sender_waiting": 20,
+         "@class:surveyor/*/recv/*/rv=11/after=survey*expire*": 2,
+         "@class:*/after=*is-parked*": 30,
+         # gap 3: enumerated disruptions
+         "unsubscribes_with_pending": 4, "new_request_with_reply_pending": 2,
+         "resizes_of_full_recvbuf": 100, "resizes_of_full_sendbuf": 200,
+         "peer_fill_refused": 100, "send_fill_refused": 80,
+         "@class:sub/*/after=unsubscribe*": 6,
+         # gap 4: descriptors created lazily for a pollable that is already raised
+         "lazy_fd_first_probes": 600, "lazy_fd_first_probe_raised": 400, "@class:lazy:*": 40,
+         }
+    for n in _NAMES:
+        f["probes_" + n] = int(350 * scale)
+        f["@class:%s/inproc/*" % n] = 30
+        f["@class:%s/tcp/*" % n] = 30
+    for n in _CTX:
+        f["@class:form:%s/ctx-*" % n] = 3
+    return f
+
+
 SPEC = dict(
     level="exploration",
-    level_text="Runtime differential monitor at quiescent points: for every protocol (cooked and raw) over inproc and tcp, random histories of peer send / peer receive / buffer resize / peer loss and return / subscribe-unsubscribe are driven, and after every step, once the library is quiescent (guarded in-flight counter of tasks, pollers and reaps is zero and stays zero), the recv and send poll descriptors are sampled and a NONBLOCK receive and send are issued. Violations: descriptor readable but NNG_EAGAIN (persistent), success while the descriptor was not readable, NNG_EAGAIN although the same call with a 100 ms timeout then succeeds with no other stimulus, a NONBLOCK call taking > 400 ms (protocol timers are set to >= 2 s so waiting for one is unambiguous), and ownership of a message after a failed send (ASan / allocator balance).",
-    level_note="Quiescence is established by the hook counters plus a settle re-check (3 ms on tcp); kernel loopback latency beyond that would show as a transient and is filtered by the persistence re-check. The 400 ms bound is wall-clock but 100x above what a non-blocking call needs.",
+    level_text="Runtime differential monitor at quiescent points: for every protocol (cooked and raw) over inproc and tcp, random histories (peer send / peer fill until refused / peer receive / buffer resize / peer loss and return / local pipe close / subscribe-unsubscribe on socket and context / a blocking aio posted on the socket or a context and then cancelled, timed out, or left parked while probes run and a further event happens / a survey that expires) and enumerated 'parked' scenarios (messages pending from three peers, then one disruption for every target: pipe close, peer close, resize, unsubscribe with messages queued, resize of a FULL receive or send queue 4->1, 1->0, 0->4, the same with a sender waiting, a peer taking one or two messages while a sender waits, a new request/survey with the reply unread, survey expiry with responses unread) are driven. After every step, once the library is quiescent (guarded in-flight counter of tasks, pollers and reaps is zero and stays zero), the recv and send poll descriptors are sampled and non-blocking receives and sends are issued in every API form: nng_recvmsg/nng_sendmsg, the buffer forms nng_recv/nng_send, zero-timeout aios, and nng_ctx_recvmsg/nng_ctx_sendmsg and zero-timeout aios on an extra context (req, rep, sub, surveyor, respondent), in a seeded order, so that context activity is followed by socket probes that judge the descriptors. In half of the histories (two thirds of the parked scenarios) the descriptors are requested only after traffic, so the library creates them for a pollable that is already raised. Violations: descriptor readable but NNG_EAGAIN (persistent), success while the descriptor was not readable, NNG_EAGAIN although the same call with a 30 ms timeout then succeeds with no other stimulus (library idle for 10 ms and a second NONBLOCK attempt still refused), a flagged call failing with NNG_ETIMEDOUT, a NONBLOCK call during which the calling thread sleeps > 1.5 s (protocol timers are >= 2 s) or > 400 ms twice in a row, and ownership of a message after a failed send (message still attached to a failed zero-timeout aio; ASan / allocator balance for the other forms).",
+    level_note="Quiescence is established by the hook counters plus a settle re-check (3 ms on tcp); kernel loopback latency beyond that would show as a transient and is filtered by the persistence re-check. 'Blocks' is judged on the time the calling thread slept inside the call (wall minus on-CPU minus runnable time from /proc/thread-self/schedstat), not on wall time. NNG_FLAG_ALLOC does not exist in this version of the API. Send-side back-pressure of the kernel (large messages over tcp to a peer that does not read) is not driven: delayed ACKs are a stimulus the harness cannot see.",
     technique="runtime differential oracle (NONBLOCK vs short-timeout vs poll fd) at hooked quiescent points",
-    rule="a case is (protocol, cooked/raw, transport, seeded history of 6-14 steps); two probes (recv, send) after every step; a class is (protocol, op, descriptor state, result, preceding step) actually observed",
-    assumptions=["probing changes the state (a successful probe sends/receives a message); that is part of the history"],
+    rule="a case is (protocol, cooked/raw, transport, seeded history of 6-14 steps) or an enumerated (protocol, cooked/raw, transport, disruption, target); up to four probes (socket recv/send, context recv/send) after every step; a class is (protocol, transport, op, descriptor state, result, preceding step) actually observed, plus (protocol, op, API form, result), (lazily created descriptor, state, result) and (parked aio kind, outcome)",
+    assumptions=["probing changes the state (a successful probe sends/receives a message; a refused REQ send or timed-out REQ receive resets the request): that is part of the history"],
     quick=dict(runs=[R("c15_nonblock", "asan", 8, 3, "", 600), R("c15_nonblock", "asan", 8, 0, "parked", 600)],
-               floor={"probes": 4000, "parked_cases": 500, "@classes": 200}, eval_key="probes"),
+               floor=_floors(1.0), eval_key="probes"),
     thorough=dict(runs=[R("c15_nonblock", "asan", 16, 24, "", 3000)],
-                  floor={"probes": 15000, "@classes": 300}, eval_key="probes"),
+                  floor=_floors(2.5), eval_key="probes"),
 )
